@@ -45,7 +45,7 @@ META = {
     "level_note": "Trusted: TestCaseChromosome/ComputationCache as carrier of the table-driven verdicts.",
 }
 PLAN = {
-    "quick": {"shards": 12, "examples": 3600, "search_examples": 24},
+    "quick": {"shards": 12, "examples": 3000, "search_examples": 24},
     "thorough": {"shards": 16, "examples": 150000, "search_examples": 1600, "timeout": 3000},
 }
 
